@@ -38,6 +38,50 @@ for _a in (1, 2, 3, 4):
     SLICES['skip%d-tail2' % _a] = ((_a, -2), (-2, 0))
 
 
+def synth_unit(unit):
+    """synthesise up to 8 distinct valid compact numbers of a module with the engine (accepting paths of validate on a symbolic
+    string over 0-9A-Z), confirmed by the real validate(); they only enlarge the corpus used for layout inference"""
+    import importlib as _il
+    m, L = unit['module'], unit['L']
+    E.install(common.REPO)
+    E.CONFIG['K'] = 0
+    E.CONFIG['query_timeout_ms'] = 4000
+    mod = _il.import_module(m)
+    VE = sys.modules['stdnum.exceptions'].ValidationError
+    from symx.replay import Replayer, step as _step
+    rp = Replayer(common.REPO)
+    found = []
+
+    def body():
+        x, chars = E.symstr(L, 's', 48, 90)
+        try:
+            return x, mod.validate(x)
+        except VE:
+            raise E.Assume('rejected')
+    try:
+        for st, out in E.explore(body, max_paths=400, timeout=unit['timeout']):
+            if st is None:
+                break
+            if out[0] != 'ret':
+                continue
+            x = out[1][0]
+            for _ in range(3):
+                mdl = st.witness_model()
+                if mdl is None:
+                    break
+                xs = E.model_str(mdl, x)
+                r = rp.run([_step(m, 'validate', xs)])[0]
+                if r['kind'] == 'ret' and isinstance(r.get('value'), str) and r['value'] not in found:
+                    found.append(r['value'])
+                st.add(z3.Not(x._eqz(xs)))
+                st.model = None
+            if len(found) >= 8:
+                break
+    finally:
+        rp.close()
+    return {'unit': unit, 'found': found}
+
+
 def infer_layouts():
     """module -> (generator name, layout name, payload alphabet, check alphabet, payload lengths); done on the real code
     through the replay worker (concrete calls only)"""
@@ -52,7 +96,7 @@ def infer_layouts():
         gens = [g for g in ('calc_check_digit', 'calc_check_digits') if g in info['functions'] and len(info['functions'][g]['params'] or []) == 1]
         if not gens:
             continue
-        vals = sorted(set(v for r, v in info['valid']))
+        vals = sorted(set(v for r, v in info['valid']) | set(_SYNTH.get(m, [])))
         if not vals:
             continue
         found = None
@@ -138,6 +182,24 @@ def unit_fn(unit):
 
 
 _LAY = []
+_SYNTH = {}
+
+
+def synthesize(tier):
+    """phase 1: enlarge small corpora (fewer than 5 valid numbers) of modules that expose a generator"""
+    intro = common.introspect()
+    units = []
+    from .vfamily import GENERIC
+    for m, info in sorted(intro.items()):
+        if m in GENERIC or not any(g in info['functions'] for g in ('calc_check_digit', 'calc_check_digits')):
+            continue
+        vals = sorted(set(v for r, v in info['valid']))
+        if vals and len(vals) < 5:
+            for L in sorted(set(len(v) for v in vals))[:2]:
+                units.append({'module': m, 'L': L, 'timeout': 20 if tier == 'quick' else 120})
+    for res in common.run_units(synth_unit, units, 200):
+        if res.get('found'):
+            _SYNTH.setdefault(res['unit']['module'], []).extend(res['found'])
 
 
 def make_units(tier, only):
@@ -166,7 +228,9 @@ def make_units(tier, only):
 
 
 def main(args):
+    synthesize(args.tier)
     _LAY.append(infer_layouts())
     layouts, uncovered = _LAY[0]
     return main_generic('C05', args, make_units, unit_fn, ASSUMPTIONS,
-                        bounds={'layouts': {m: [l['gen'], l['layout'], l['calpha']] for m, l in layouts.items()}, 'uncovered': uncovered})
+                        bounds={'layouts': {m: [l['gen'], l['layout'], l['calpha']] for m, l in layouts.items()}, 'uncovered': uncovered,
+                                'synthesised_valid_numbers': {m: len(v) for m, v in _SYNTH.items()}})
